@@ -151,6 +151,11 @@ def closure_points(c, s):
         level = nxt
     return set(level.keys())
 
+def vs(c, s):
+    """the vertex set of s as a frozenset of name tokens, read through faces() only: an oracle that
+    used basisOf() to define the family would inherit a stale basis memo from the code under test"""
+    return frozenset(closure_points(c, s))
+
 def views_message(c, rnd):
     mx = c.maxOrder()
     per = [c.simplicesOfOrder(k) for k in range(mx + 1)]
